@@ -9,30 +9,31 @@ import (
 
 // Shape describes what a random graph should contain.
 type Shape struct {
-	Family     string // oci | docker | mixed
-	Kind       string // image | index | nested | schema1 | artifact | artifact-index
-	Platforms  int    // entries of the index
-	Layers     int    // layers per image
-	Share      bool   // share layers between platforms
-	DupLayer   bool   // the same layer listed twice in one image
-	DupTimes   int    // further repetitions of that layer (many goroutines ask for one blob at the same instant)
-	EmptyBlob  bool   // one zero-length layer
-	Inline     bool   // inline data on some descriptor
-	BlobEntry  bool   // index carries a blob-typed entry
-	Referrers  int    // referrers to the top manifest
-	ChildRefs  int    // referrers attached to manifests below the top (platform images, nested indexes)
-	ChildDTags int    // digest tags attached to manifests below the top
-	RefOfRef   bool   // a referrer of the first referrer
-	DigestTags int    // sha256-<hex>.suffix style tags pointing to extra images
-	Foreign    bool   // a foreign layer with URLs not hosted by the source
-	ForeignURL string `json:"-"` // base URL of a host that really serves foreign layers (default: an unreachable address)
-	MaxBlob    int
+	Family      string // oci | docker | mixed
+	Kind        string // image | index | nested | schema1 | artifact | artifact-index
+	Platforms   int    // entries of the index
+	Layers      int    // layers per image
+	Share       bool   // share layers between platforms
+	DupLayer    bool   // the same layer listed twice in one image
+	SharedChild bool   // (nested) the top index also lists, directly, an image of its first nested index
+	DupTimes    int    // further repetitions of that layer (many goroutines ask for one blob at the same instant)
+	EmptyBlob   bool   // one zero-length layer
+	Inline      bool   // inline data on some descriptor
+	BlobEntry   bool   // index carries a blob-typed entry
+	Referrers   int    // referrers to the top manifest
+	ChildRefs   int    // referrers attached to manifests below the top (platform images, nested indexes)
+	ChildDTags  int    // digest tags attached to manifests below the top
+	RefOfRef    bool   // a referrer of the first referrer
+	DigestTags  int    // sha256-<hex>.suffix style tags pointing to extra images
+	Foreign     bool   // a foreign layer with URLs not hosted by the source
+	ForeignURL  string `json:"-"` // base URL of a host that really serves foreign layers (default: an unreachable address)
+	MaxBlob     int
 }
 
 // Key is a short shape-class string for distinct counting.
 func (s Shape) Key() string {
 	return fmt.Sprintf("%s/%s/p%d/l%d/sh%t/du%t/em%t/in%t/be%t/r%d/rr%t/dt%d/fo%t/cr%d/cd%d", s.Family, s.Kind, s.Platforms, s.Layers,
-		s.Share, s.DupLayer, s.EmptyBlob, s.Inline, s.BlobEntry, s.Referrers, s.RefOfRef, s.DigestTags, s.Foreign, s.ChildRefs, s.ChildDTags)
+		s.Share, s.DupLayer, s.EmptyBlob, s.Inline, s.BlobEntry, s.Referrers, s.RefOfRef, s.DigestTags, s.Foreign, s.ChildRefs, s.ChildDTags) + map[bool]string{true: "/shared-child", false: ""}[s.SharedChild]
 }
 
 // RandomShape draws a shape.
@@ -57,6 +58,9 @@ func RandomShape(rng *rand.Rand) Shape {
 	}
 	if s.Kind == "schema1" {
 		s.Family = "docker"
+	}
+	if s.Kind == "nested" && rng.Intn(2) == 0 {
+		s.SharedChild = true
 	}
 	return s
 }
@@ -149,7 +153,17 @@ func Random(rng *rand.Rand, alg string, s Shape, topTag string) *Graph {
 		if f == "mixed" {
 			f = "oci"
 		}
-		top = g.Index(f, []*Node{a, b}, nil, map[string]string{"nested": "true"})
+		es := []*Node{a, b}
+		if s.SharedChild {
+			// a manifest that sits under two parents of one graph: listed by the nested index AND directly by the top
+			for _, cid := range a.Refs {
+				if g.Nodes[cid].IsManifest() {
+					es = []*Node{g.Nodes[cid], a, b}
+					break
+				}
+			}
+		}
+		top = g.Index(f, es, nil, map[string]string{"nested": "true"})
 	case "schema1":
 		var ls []*Node
 		for j := 0; j < s.Layers; j++ {
